@@ -40,7 +40,7 @@ API_CLASS = {
     'numpy.exp': 'EXP', 'math.exp': 'EXP', 'numpy.log': 'LOG', 'math.log': 'LOG',
     'numpy.cumprod': 'CUMPROD', 'numpy.cumsum': 'CUMSUM', 'numpy.prod': 'PROD',
     'numpy.copysign': 'COPYSIGN', 'math.copysign': 'COPYSIGN', 'numpy.sign': 'SIGN',
-    'numpy.isclose': 'ISCLOSE', 'math.isclose': 'ISCLOSE',
+    'numpy.isclose': 'ISCLOSE', 'math.isclose': 'MISCLOSE',
     'builtins.len': 'LEN', 'builtins.sorted': 'SORTED', 'builtins.list': 'LIST', 'builtins.set': 'SET',
     'builtins.sum': 'SUM', 'numpy.sum': 'SUM', 'builtins.max': 'MAX', 'builtins.min': 'MIN', 'numpy.max': 'MAX', 'numpy.min': 'MIN',
     'numpy.maximum': 'MAX', 'numpy.minimum': 'MIN', 'numpy.amax': 'MAX', 'numpy.amin': 'MIN',
@@ -312,7 +312,7 @@ def teq(a, b):
 
 _HEADS = {'num', 'str', 'const', 'var', 'attr', 'sub', 'call', 'new', 'tuple', 'list', 'set', 'dict', 'rat', 'cmp', 'not',
           'and', 'or', 'ite', 'comp', 'lambda', 'fmt', 'sum', 'elem', 'havoc', 'bv', 'ext', 'fn', 'meth', 'mod', 'slice',
-          'starred', 'lc', 'obj', 'pow', 'localfn', 'exc', 'yieldv', 'accum'}
+          'starred', 'lc', 'obj', 'pow', 'localfn', 'exc', 'yieldv', 'accum', 'nt'}
 
 
 # ------------------------------------------------------------------ traversal
@@ -356,7 +356,7 @@ def replace(t, f):
             if x[0] == 'rat':
                 r = x[1].subst(lambda a: rat(rec(a)))
                 y = unrat(r)
-            elif x[0] in ('num', 'str', 'const', 'var', 'ext', 'fn', 'meth', 'mod', 'bv', 'havoc', 'lc'):
+            elif x[0] in ('num', 'str', 'const', 'var', 'ext', 'fn', 'meth', 'mod', 'bv', 'havoc', 'lc', 'nt'):
                 y = x
             else:
                 y = (x[0],) + tuple(rec(z) for z in x[1:])
@@ -427,6 +427,8 @@ def fmt(t):
         return '%s[%s]' % (fmt(t[1]), fmt(t[2]))
     if h == 'ext':
         return t[1]
+    if h == 'nt':
+        return t[1][3:]
     if h == 'fn':
         return t[1]
     if h == 'call':
